@@ -61,7 +61,10 @@ class Remap:
         pass
 
     def floor(self, name, actual, minimum):
-        self.chk.floor(name, actual, minimum)
+        # instance floors belong to the check that owns the rule group: when its rules are only borrowed, a floor that is not
+        # met (the borrowed extractor lost sight of its constructs on this tree) must not mask what the borrowing check
+        # itself reports - the owning property's own run raises it
+        pass
 
     def sample(self, obj):
         pass
